@@ -265,8 +265,8 @@ func main() {
 		rn.close()
 	}
 
-	nCorpora := f.N(12, 300)
-	perCorpus := f.N(250, 700)
+	nCorpora := f.N(9, 160)
+	perCorpus := f.N(450, 1000)
 	for k := 0; k < nCorpora; k++ {
 		repos := genCorpus(r)
 		rn := newRunner(repos)
